@@ -22,7 +22,7 @@ class C02(Check):
         "configurations; after every step the full dump of every bucket is compared with the reference list model; "
         "non-trivial = at least 3 mutating ops executed of at least 2 kinds; distinct = distinct (backend, op-kind sequence)"
     )
-    expected_probes = ["tie_endtime", "tie_timestamp", "zero_length", "upsert_executed", "replace_last_executed", "delete_live", "delete_never", "delete_id_of_other_bucket", "byid_dead", "restart_clean", "bulk_over_50", "bulk_over_100", "bulk_same_object_twice"]
+    expected_probes = ["tie_endtime", "tie_timestamp", "zero_length", "upsert_executed", "replace_last_executed", "delete_live", "delete_never", "delete_id_of_other_bucket", "byid_dead", "restart_clean", "bulk_over_50", "bulk_over_100", "bulk_same_object_twice", "bulk_same_id_twice"]
     assumptions = ["callers are serialised; (get(limit=1); replace_last) is issued as one atomic group, as documented"]
 
     def gen(self, seed, idx, tier):
@@ -35,7 +35,7 @@ class C02(Check):
         lat = gen.lattice(rs["lat"])
         if r.random() < 0.6:
             lat["n"] = min(lat["n"], 8)
-        cfg = {"lat": lat, "alphabet": r.choice([1, 2, 3]), "bulk_max": r.choice([3, 8, 60, 130]), "upsert_p": r.choice([0.0, 0.2, 0.5]), "foreign_p": 0.0, "foreign_delete_p": 0.12, "dup_p": r.choice([0.0, 0.0, 0.15]), "never_p": 0.15, "wild": r.random() < 0.15, "wild_p": 0.3}
+        cfg = {"lat": lat, "alphabet": r.choice([1, 2, 3]), "bulk_max": r.choice([3, 8, 60, 130]), "upsert_p": r.choice([0.0, 0.2, 0.5]), "foreign_p": 0.0, "foreign_delete_p": 0.12, "dup_p": r.choice([0.0, 0.0, 0.15]), "again_p": 0.3, "never_p": 0.15, "wild": r.random() < 0.15, "wild_p": 0.3}
         steps = actors.creates(rs["meta"], buckets, cfg)
         parties = []
         for k, b in enumerate(buckets):
@@ -46,7 +46,10 @@ class C02(Check):
         weights = {"importer": r.choice([1.0, 2.0]), "editor": r.choice([1.0, 2.0, 3.0]), "reader": 0.7, "operator": 0.12}
         nsteps = r.choice([3, 5, 8, 15, 30, 60] + ([120, 240] if tier == "thorough" else []))
         steps += actors.schedule(rs["sched"], parties, weights, nsteps)
-        return {"backend": backend, "steps": steps, "lat": lat}
+        run = {"backend": backend, "steps": steps, "lat": lat}
+        if r.random() < 0.05:
+            run["clock0"] = 1_835_438_400_000_000  # 2028-02-29T12:00:00Z: the wall clock may well read a leap day
+        return run
 
     # ------------------------------------------------------------------
     def start(self, world, run):
